@@ -179,7 +179,7 @@ func c01SemSpecs(quick bool) []*SeqSpec {
 func init() {
 	comboCheck(comboDef{id: "C01", level: "exploration",
 		enum: func(q bool) []*EnumPlan {
-			return []*EnumPlan{{Name: "text-pooled-commands", Cases: c01TextCases, Eval: evalC01Text}}
+			return []*EnumPlan{{Name: "text-pooled-commands", Cases: c01TextCases, Eval: evalC01Text}, {Name: "count-boundary", Cases: c01BoundCases, Eval: evalC01Bound}}
 		},
 		sched: func(q bool) *SchedPlan {
 			specs := coreSchedSpecs(q)
